@@ -98,6 +98,12 @@ def _round(args):
     return suites, findings
 
 
+def _raised_in_implementation(tb_text):
+    """does the innermost frame of the traceback lie in the library under test?"""
+    frames = re.findall(r'File "([^"]+)", line \d+', tb_text)
+    return bool(frames) and os.path.abspath(frames[-1]).startswith(os.path.join(os.path.abspath(common.REPO), "hmclab"))
+
+
 def match_known(finding, known):
     for e in known:
         if e.get("kind") != "finding" or e.get("property") != finding.prop:
@@ -165,6 +171,14 @@ def run_check(pid, tier, seed):
 
     if infra_error is not None:
         print(infra_error, file=sys.stderr)
+        if _raised_in_implementation(infra_error):
+            # the library itself raised while the property was being exercised in a way the harness does not tolerate anywhere on the
+            # unchanged tree: the property is no longer shown to hold, and the traceback is the replay
+            path = write_replay(pid, "implementation-raised", {"traceback": infra_error, "origin": {"tier": tier, "seed": seed, "via": "run"},
+                                                               "note": "an exception escaped from the implementation during the check"})
+            print(f"[{pid}] the implementation raised during the check (traceback in {path})")
+            print(f"VIOLATION property={pid} replay={path} no-failing-input-found")
+            return 1
         print(f"INFRASTRUCTURE-ERROR property={pid} (harness exception, see stderr)")
         return 2
 
